@@ -430,11 +430,19 @@ fn run_child(path_env: &str, fault: &str, file: &str, index: usize, timeout: Dur
     ChildResult { outcome: tagged("crash", vec![string(st)]), len: 0, norm: None, lines: 0, facts_norm: None, weak_norm: None, err_msg: String::new(), secs }
 }
 
+/// the option set of this run, rustfmt aside: FAULTS_OPT_INDEX (run::Opts::from_index), default = WriteOptions::default()
+fn base_options() -> wgsl_to_wgpu::WriteOptions {
+    match std::env::var("FAULTS_OPT_INDEX").ok().and_then(|v| v.parse::<usize>().ok()) {
+        Some(i) => wgsl_to_wgpu::WriteOptions { rustfmt: false, ..run::Opts::from_index(i % 96).to_write_options() },
+        None => wgsl_to_wgpu::WriteOptions::default(),
+    }
+}
+
 fn child_main(file: &str, index: usize) {
     run::silence_panics();
     let cases = read_cases(file);
     let (_, src) = &cases[index];
-    let wo = wgsl_to_wgpu::WriteOptions { rustfmt: true, ..Default::default() };
+    let wo = wgsl_to_wgpu::WriteOptions { rustfmt: true, ..base_options() };
     match std::env::var("FAULTS_RUSTFMT").ok().as_deref().and_then(|v| v.strip_prefix("value:")) {
         Some(v) => std::env::set_var("RUSTFMT", v),
         None => std::env::remove_var("RUSTFMT"),
@@ -512,7 +520,7 @@ enum RefOut {
 }
 
 fn reference(src: &str) -> RefOut {
-    let wo = wgsl_to_wgpu::WriteOptions::default();
+    let wo = base_options();
     let r = catch_unwind(AssertUnwindSafe(|| wgsl_to_wgpu::create_shader_module_embedded(src, wo)));
     match r {
         Ok(Ok(text)) => {
